@@ -48,6 +48,12 @@ def main(tier):
         res.counters.inc("sweep_reference_stat_read_calls", len(calls))
         plans = histrun.fault_plans(calls, every=3 if quick else 1)
         res.merge(histrun.run_sweep(PROP, b, idx, "sw", prof2, ORACLES, plans))
+    # directed: deferred two-channel message, clean stop, restart with one failing stat()/read()/open() of a queue or
+    # control file during the start-up scan or later (DESIGN.md 7: added after seed c04-s2)
+    prof3 = {"directed": "restart-fault", "count": "tro", "trace_extra": "tr", "incarnation": 2, "conc": [5], "spawn": [120], "lifetimes": [604800]}
+    calls, h = histrun.reference_calls_log(PROP, b, 0, "rf", prof3, classes=("stat", "lstat", "read", "openr"))
+    res.counters.inc("restart_fault_reference_calls", len(calls))
+    res.merge(histrun.run_sweep(PROP, b, 0, "rf", prof3, ORACLES, histrun.fault_plans(calls, every=1)))
     rule = ("seeded random histories (1-3 messages, 0-4 recipients incl. duplicates, senders ordinary/empty/#@[]/VERP, outcomes "
             "K/Z/D/garbage per attempt, ALRM/HUP/TERM+restart, clock steps, concurrency and spawner limits) on real qmail-send + "
             "qmail-clean + qmail-queue; random crashes with disk variants keep-all and lose-all-unsynced; SIGKILL before every "
